@@ -157,16 +157,17 @@ CLAIMED = {
 }
 # additions of the fifth seeded-change round, appended to the level text
 ROUND5 = {
+ "C01": "Desired documents are also shaped the way a person writes them (CHECK expressions without the clause's parentheses, expression defaults with them); the schema model adds generated columns with comma types and prefix names, foreign keys without parent columns or with the parent in another letter case, expression index parts without parentheses or with an explicit ASC, and comments that mention constraints (shared by C03, C05, C17, C18, C19, C20).",
  "C03": "The HCL loop runs for the realm document and for the schema-scoped one (InspectSchema -> MarshalHCL -> EvalHCL -> SchemaDiff both ways).",
  "C04": "The same graphs are also spread over two schemas with tables 2k and 2k+1 sharing a name (RealmDiff, schema-qualified statements, catalogue keyed by schema.table).",
  "C06": "Every history step that leaves a tampered directory with a sum file is also read by one of ten other readers (migrate status / lint / diff, schema diff / apply / inspect; relative, ./relative and absolute URLs), which must refuse it with a checksum error.",
- "C07": "Injection sites include the name of the first table (it lands in the comment line that opens the file) and directive-like names.",
- "C08": "Delimiters include multi-byte ones.",
+ "C07": "Injection sites include the name of the first table (it lands in the comment line that opens the file), directive-like names and words that contain the goose / dbmate pragma keywords.",
+ "C08": "Delimiters include multi-byte ones; the scanning time of a run of unterminated BEGIN words must not explode with its length (22 repetitions against 10, all three driver scanners).",
  "C09": "The statement text carries a per-case number so that the recorded statement checksums vary.",
  "C10": "Configurations with a file added below the last applied version and run with --exec-order non-linear (a crash inside it must be resumed).",
- "C11": "Directories are also written with Windows line endings (file directives must still be read).",
+ "C11": "Directories are also written with Windows line endings (file directives must still be read); fixed CLI histories with a half-applied file below the last applied version (stepped over with migrate set, or left by a failing non-linear run and resumed).",
  "C12": "A completed file must carry no error (also when the failing tail was deleted); partial revisions without statement checksums must not crash the run.",
- "C13": "Also: a second failing statement further down the same file, repaired one at a time; directories with Windows line endings; --dry-run --baseline on a non-clean database.",
+ "C13": "Also: a second failing statement further down the same file, repaired one at a time; directories with Windows line endings; --dry-run --baseline on a non-clean database; after repair and re-run every revision records the file hash atlas.sum holds.",
  "C14": "Dev databases also: a file holding only a table named libsql_<x> (residual finding: not refused; it is handed back untouched).",
  "C15": "Default pools include long fractions, exponents, integers above 64 bits and strings that look like booleans, numbers or hex literals; MySQL checks carry the ENFORCED attribute both ways; realms of two schemas (every subset of the base tables copied, foreign keys pointing back into the first schema) are round-tripped with a direct comparison of foreign-key targets.",
  "C16": "Spans include a second schema that differs by case only; span cases also run through the planners of drivers opened against MySQL 8 / 5.7 / MariaDB / TiDB; bare type names (mood[]) count as references; columns are retyped to enums and enum arrays.",
